@@ -343,8 +343,13 @@ func Main() {
 			tn = "t"
 		}
 		seed := run.Seed*1000 + int64(i)
-		res := vlib.RunChild("", []string{"child", fmt.Sprint(seed), run.Tier, sf, fmt.Sprint(rounds), tn}, nil, nil, 30*time.Minute)
-		desc := map[string]interface{}{"child_seed": seed, "testnet_addresses": tn == "t"}
+		var env []string
+		if i%4 >= 2 {
+			env = []string{"VERIF_PURGE=1"} // utxo.UTXO_PURGE_UNSPENDABLE, as a freshly configured client runs
+			run.Inc("histories_with_purge_unspendable")
+		}
+		res := vlib.RunChild("", []string{"child", fmt.Sprint(seed), run.Tier, sf, fmt.Sprint(rounds), tn}, env, nil, 30*time.Minute)
+		desc := map[string]interface{}{"child_seed": seed, "testnet_addresses": tn == "t", "purge": i%4 >= 2}
 		if res.TimedOut {
 			run.Inconclusive("child watchdog fired: %v", desc)
 			return
